@@ -115,6 +115,21 @@ def lock_analysis(db, fn):
             for s in subterms(a):
                 if s.get('k') == 'local' and s.get('did') in allocvars:
                     return True
+                if s.get('k') == 'lambda':
+                    # a closure handed to the call runs (at the latest) inside it: what its body reaches, the call reaches
+                    lam = db.fns.get(s.get('fn'))
+                    if lam is not None:
+                        for e2 in lam.events():
+                            for root in (e2.get('e'), e2.get('rhs')):
+                                for s2 in (subterms(root) if isinstance(root, dict) else []):
+                                    if not isinstance(s2, dict):
+                                        continue
+                                    if s2.get('k') in ('call', 'construct') and cls_template(s2.get('cls', '')) in TRAITS:
+                                        return True
+                                    if s2.get('k') == 'call' and s2.get('short') == 'get_allocator':
+                                        return True
+                                    if s2.get('k') == 'local' and s2.get('did') in allocvars:
+                                        return True
                 if s.get('k') == 'call' and s.get('short') == 'get_allocator':
                     return True
                 if is_this_deref(s) and t.get('short') not in ('lock_guard',) and t.get('k') == 'call' \
